@@ -7,7 +7,8 @@
 (b) E1: for a menu of schedules placed on sources and on Field/Phasor detectors of a tiny scene, every step index of
     the run is a state: the real `forward` step is tabulated on 0 and all basis states (source part) and executed
     step by step on a generic trajectory (detector part); at inactive steps the tabulated step must be *identical*
-    to the source-free step, and after every step each detector array must hold exactly one record per active step
+    to the source-free step (at the k-th active step the offset must be the one of the always-on source at its step
+    k, the time-step -> on-index map; 1e-5 because fdtdx interpolates that index in float32), and after every step each detector array must hold exactly one record per active step
     so far, in chronological order, every other slot still holding its sentinel.
 """
 import itertools
